@@ -8,17 +8,21 @@ from ._streamer import Elem, Stream
 
 class TeeX:
     # Tee element
-    __slots__ = ('value', 'next', 'n', 'lock')
+    __slots__ = ('value', 'next', 'n', 'lock', 'exc')
     # `n`` is count of the times this element has been "consumed".
     # Once `n` is equal to the number of forks in the tee, this
     # element can be discarded. In that situation, this element must
     # be at the head of the queue.
 
-    def __init__(self, x, /):
+    def __init__(self, x, /, exc=None):
         self.value = x
         self.next = None
         self.n = 0
         self.lock = threading.Lock()
+        self.exc = exc
+        # If `exc` is not None, this is the terminal element of the chain:
+        # it carries the exception raised by `instream` and holds no value.
+        # It is not placed in the buffer.
 
 
 class Fork:
@@ -61,10 +65,17 @@ class Fork:
                             # is empty, the exception will be propagated, halting
                             # this fork. All the other forks will also get to this
                             # point and exit the same way.
-                            x = next(self.instream)
-                            box = TeeX(x)
-                            self.buffer.put(box)
-                            self.head.value = box
+                            try:
+                                x = next(self.instream)
+                            except StopIteration:
+                                raise
+                            except Exception as e:
+                                # Every fork will raise it; see below.
+                                self.head.value = TeeX(None, exc=e)
+                            else:
+                                box = TeeX(x)
+                                self.buffer.put(box)
+                                self.head.value = box
                     finally:
                         self.instream_lock.release()
                 self.next = self.head.value
@@ -78,6 +89,11 @@ class Fork:
             else:
                 raise StopIteration
         else:
+            if self.next.exc is not None:
+                # `instream` has failed; all the elements it produced before that
+                # have been yielded by this fork.
+                raise self.next.exc
+
             while self.next.next is None:
                 # During this loop while waiting on the `instream_lock`,
                 # `self.next.next` may become not None thanks to another Fork's
@@ -87,20 +103,26 @@ class Fork:
                 # the final data element in the buffer.
                 locked = self.instream_lock.acquire(timeout=0.1)
                 if locked:
-                    if self.next.next is None:
-                        try:
-                            x = next(self.instream)
-                        except StopIteration:
-                            # `instream` is exhausted.
-                            # `self.next.next` remains `None`.
-                            # The next call to `__next__` will land
-                            # in the first branch and raise `StopIteration`.
-                            pass
-                        else:
-                            box = TeeX(x)
-                            self.next.next = box  # IMPORTANT: this line goes before the next to avoid race.
-                            self.buffer.put(box)
-                    self.instream_lock.release()
+                    try:
+                        if self.next.next is None:
+                            try:
+                                x = next(self.instream)
+                            except StopIteration:
+                                # `instream` is exhausted.
+                                # `self.next.next` remains `None`.
+                                # The next call to `__next__` will land
+                                # in the first branch and raise `StopIteration`.
+                                pass
+                            except Exception as e:
+                                # Publish the failure as the terminal element so that
+                                # every fork raises it after the elements before it.
+                                self.next.next = TeeX(None, exc=e)
+                            else:
+                                box = TeeX(x)
+                                self.next.next = box  # IMPORTANT: this line goes before the next to avoid race.
+                                self.buffer.put(box)
+                    finally:
+                        self.instream_lock.release()
                     break
 
             # Check whether the buffer head should be popped:
